@@ -1,7 +1,7 @@
 (* Correspondence and monitor for C01, evaluated on cases written by harness/props/c01.py. *)
 From Coq Require Import NArith List Bool Arith.
 Import ListNotations.
-From HV Require Export lib.Harness model.Validity model.Builder spec.BuilderWFS model.Builder2 spec.Builder2WFS.
+From HV Require Export lib.Harness model.Validity model.Builder spec.BuilderWFS model.Builder2 spec.Builder2WFS spec.Builder2LiveS.
 Local Open Scope N_scope.
 
 (* ------------------------------------------------------------------ equality of literals *)
@@ -87,9 +87,14 @@ Definition prem (c : case) : bool :=
   match c with
   | CPrem tys p => wf_prog tys p && r_table tys
   (* the premises of the theorems about the extended language (spec/Builder2WFS.v) *)
-  | CPrem2 tys p => croot_ok p && wt_prog2 tys p && r_table tys
+  | CPrem2 tys p => croot_ok p && wt_prog2 tys p && r_table tys &&
+                     (* fourth pass: the liveness-aware premises of rules 9, 10, 11 (spec/Builder2LiveS.v) *)
+                     ord_prog2 p && lin_prog2 tys p
   | _ => true
   end.
+(* diagnostics: which of the fourth-pass premises fails *)
+Definition prem_ord (c : case) : bool := match c with CPrem2 _ p => ord_prog2 p | _ => true end.
+Definition prem_lin (c : case) : bool := match c with CPrem2 tys p => negb (wt_prog2 tys p) || lin_prog2 tys p | _ => true end.
 
 (* diagnostic: agreement with the design-time transcription *)
 Definition agree (c : case) : bool :=
